@@ -35,7 +35,7 @@ def project(case, line, keys):
     whether the page carried an error prefix (then the first output line is compared by presence only)."""
     return line
 
-def compare_lines(impl, model, keys, long_lived=False, no_lookup_log=False):
+def compare_lines(impl, model, keys, long_lived=False, no_lookup_log=False, no_call_log=False):
     """Compare one case. Returns None if equal on the projection, else a description.
 
     long_lived: the case is served by one engine object. The Go renderer mutates its Menu/Page/Sizer objects in
@@ -69,8 +69,8 @@ def compare_lines(impl, model, keys, long_lived=False, no_lookup_log=False):
             return None  # model ran out of fuel: not comparable (counted by the caller)
         e = db.get('e', '0')
         for k in keys:
-            if k in skip or (no_lookup_log and k == 'lk'):
-                continue  # (DbResource does not log its lookups)
+            if k in skip or (no_lookup_log and k == 'lk') or (no_call_log and k == 'cl'):
+                continue  # (DbResource does not log its lookups, nor the calls of symbols it serves from STATICLOAD)
             va, vb = da.get(k), db.get(k)
             if k == 'o':
                 if e == '2':
